@@ -126,6 +126,8 @@ pub fn prefix_maps() -> Vec<Pm> {
         mk(&[("", "http://ex.org/a/b#c"), ("é", "http://ex.org/"), ("a.b", "tag:"), ("x", "x:")]),
         mk(&[("p0", "http://ex.org/a/"), ("p1", "http://ex.org/a/"), ("r", "http://www.w3.org/1999/02/22-rdf-syntax-ns#n")]),
         mk(&[("", RDF), ("x", XSD)]),
+        // overlapping namespaces, the shorter one listed first
+        mk(&[("e", "http://ex.org/"), ("ea", "http://ex.org/a"), ("eab", "http://ex.org/a/b#"), ("t", "tag:")]),
     ]
 }
 
@@ -1072,6 +1074,34 @@ pub fn generate(ctx: &mut GenCtx) {
         ctx.emit(&format!("iri {} {}", hex(&s), render_pm(&pm)));
         ctx.stats.bump("iri.random");
     }
+    // ---- 2b. overlapping namespaces: the IRI starts with the longer namespace but only its remainder after the
+    // shorter one is a PN_LOCAL (the longest-match loop must fall back to the shorter namespace *with its own suffix*)
+    let shorts = ["http://ex.org/", "http://ex.org/a/b#", "tag:", "x:", "http://ex.org/a/"];
+    let steps = ["a", "b:c", "x-", "_1", "%41"];
+    let rems = ["", "-", ".a", "-x", ".b:c", "a", ":", "/", "#"];
+    for (k, sh) in shorts.iter().enumerate() {
+        for st in steps {
+            for rem in rems {
+                if !ctx.thorough && ctx.rng.chance(1, 2) {
+                    continue;
+                }
+                let long = format!("{}{}", sh, st);
+                let i = format!("{}{}", long, rem);
+                if !sophia_iri::is_absolute_iri_ref(&i) || !sophia_iri::is_absolute_iri_ref(&long) {
+                    continue;
+                }
+                let mut pm = vec![("s".to_string(), sh.to_string()), ("l".to_string(), long.clone())];
+                match ctx.rng.below(4) {
+                    0 => pm.reverse(),
+                    1 => pm.insert(1, ("m".to_string(), shorts[(k + 1) % shorts.len()].to_string())),
+                    2 => pm.push(("".to_string(), format!("{}{}{}", sh, st, st))),
+                    _ => {}
+                }
+                ctx.emit(&format!("iri {} {}", hex(&i), render_pm(&Some(pm))));
+                ctx.stats.bump("iri.overlap");
+            }
+        }
+    }
     // ---- 3. exhaustive small shapes (pretty Turtle, default config)
     let uni = small_universe();
     for (i, a) in uni.iter().enumerate() {
@@ -1266,7 +1296,12 @@ fn generate_generalized(ctx: &mut GenCtx, pms: &[Pm]) {
         }
         quads.dedup();
         ctx.stats.bump("shape.generalized");
-        let mut line = format!("ser gtrig 1 {} {}", hex("  "), render_pm(&pm));
+        // one in four in streaming mode: the generalized statements must be skipped, the strict ones written
+        let stream = ctx.rng.chance(1, 4);
+        if stream {
+            ctx.stats.bump("stream.generalized");
+        }
+        let mut line = format!("ser gtrig {} {} {}", if stream { 0 } else { 1 }, hex("  "), render_pm(&pm));
         for q in &quads {
             line.push(' ');
             line.push_str(&q.render());
